@@ -12,7 +12,7 @@ T = r'''#! unit: decoder.%(lc)s
 #! mode: proof
 #! entry: h
 #! enforce: decode
-#! replace: IMS_skip IMS_can_read IMS_read_obj IMS_read_buf IMS_read_uint8_t IMS_read_uint16_t IMS_read_uint32_t IMS_read_uint64_t IMS_read_be_uint16_t IMS_read_be_uint32_t IMS_read_be_uint64_t IMS_read_le_uint16_t IMS_read_le_uint32_t IMS_pointer IMS_size IMS_bool IMS_read_v6 IMS_read_v4 IMS_read_hw6 tins_string_range
+#! replace: IMS_skip IMS_can_read IMS_read_obj IMS_read_buf IMS_read_uint8_t IMS_read_uint16_t IMS_read_uint32_t IMS_read_uint64_t IMS_read_be_uint16_t IMS_read_be_uint32_t IMS_read_be_uint64_t IMS_read_le_uint16_t IMS_read_le_uint32_t IMS_pointer IMS_size IMS_bool IMS_read_v6 IMS_read_v4 IMS_read_hw6 tins_string_range tins_range_val Internals_option2class_option_data
 #! allow-exc: malformed_option option_not_found malformed_packet
 #! anchors: %(qual)s (%(src)s)
 #! assumed: the decoded value object is not modelled: stores into it are evaluations of the stored expression; container assign/insert copy [first,last) (stub: the range must be readable)
@@ -29,14 +29,24 @@ __CPROVER_requires(__CPROVER_same_object(first, last) && __CPROVER_POINTER_OFFSE
 __CPROVER_requires(__CPROVER_r_ok(first, __CPROVER_POINTER_OFFSET(last) - __CPROVER_POINTER_OFFSET(first)))
 __CPROVER_assigns()
 ;
+int tins_range_val(const uint8_t* first, const uint8_t* last)    /* a container constructed from [first,last) used as a value */
+__CPROVER_requires(__CPROVER_same_object(first, last) && __CPROVER_POINTER_OFFSET(first) <= __CPROVER_POINTER_OFFSET(last))
+__CPROVER_requires(__CPROVER_r_ok(first, __CPROVER_POINTER_OFFSET(last) - __CPROVER_POINTER_OFFSET(first)))
+__CPROVER_assigns()
+;
+int Internals_option2class_option_data(const uint8_t* ptr, uint32_t total_sz)   /* verified in decoder.dhcpv6_option2class_option_data */
+__CPROVER_requires(__CPROVER_r_ok(ptr, total_sz))
+__CPROVER_assigns()
+;
 #define TINS_USE(...) ((void)0, (void)(__VA_ARGS__))
 %(predecl)s
 //@ func %(src)s %(qual)s %(match)s
 sig: void decode(const OPT* opt)
 ptrobj: opt=OPT
+%(rules)s
 ## generic, optional lowering of the decoded-value stores (R6)
 rule?: \b\w+_type output\(([^;]*)\); ==> TINS_USE(\1);
-rule?: \b[\w:]+(?:_type|<[\w:,\s]+>) output; ==> /* output */
+rule?: (?<!return )\b[\w:]+(?:<[\w:,\s]+>)? output; ==> /* output */
 rule?: IMS_read_(?:ICMPv6_|DHCPv6_|Dot11_)?ipaddress_type\(&stream\) ==> IMS_read_v6(&stream)
 rule?: IMS_read_IPv6Address\(&stream\) ==> IMS_read_v6(&stream)
 rule?: IMS_read_IPv4Address\(&stream\) ==> IMS_read_v4(&stream)
@@ -47,9 +57,10 @@ rule?: sizeof\(output\.(\w+)\) ==> SIZEOF_\1
 rule?: output(?:\.\w+)+\.(?:assign|insert)\(\s*(?:output(?:\.\w+)+\.end\(\),\s*)? ==> tins_string_range(
 rule?: output(?:\.\w+)+\.push_back\( ==> TINS_USE(
 rule?: output(?:\.\w+)+(?:\[[^\]]*\])? = ([^;]*); ==> TINS_USE(\1);
+rule?: \btypedef [^;]*; ==>
+rule?: \bserialization_type\( ==> tins_range_val(
 rule?: return output; ==> return;
 rule?: return \w+_type\(([^;]*)\); ==> TINS_USE(\1); return;
-%(rules)s
 contract:
 __CPROVER_requires(__CPROVER_is_fresh(opt, sizeof(OPT)) && opt->real_size_ <= 65535 && __CPROVER_is_fresh(opt->data_, opt->real_size_))
 __CPROVER_assigns()
@@ -73,6 +84,25 @@ for name, extra in [('addr_list_type', dict(loops=STREAM_LOOP % (0, ''))), ('naa
                     ('timestamp_type', {}), ('shortcut_limit_type', {}), ('new_advert_interval_type', {})]:
     D.append(dict(src=ICMP6, qual='ICMPv6::%s::from_option' % name, lc='icmpv6_' + name, predecl=SZ,
                   rules='rule?: (?:ICMPv6::)?ipaddress_type::address_size ==> 16', **extra))
+
+DH = 'src/dhcpv6.cpp'
+for name in ['ia_na_type', 'ia_ta_type', 'ia_address_type', 'authentication_type', 'status_code_type', 'vendor_info_type', 'vendor_class_type', 'duid_type', 'user_class_type']:
+    D.append(dict(src=DH, qual='DHCPv6::%s::from_option' % name, lc='dhcpv6_' + name, predecl=SZ,
+                  rules='rule?: (?:DHCPv6::)?ipaddress_type::address_size ==> 16'))
+
+PTR_LOOP = "loop 0:\n__CPROVER_assigns(ptr)\n__CPROVER_loop_invariant(__CPROVER_same_object(ptr, opt->data_) && __CPROVER_POINTER_OFFSET(ptr) >= 0 && __CPROVER_POINTER_OFFSET(ptr) <= opt->real_size_)\n__CPROVER_decreases(opt->real_size_ - __CPROVER_POINTER_OFFSET(ptr))\nend"
+DM = 'src/dot11/dot11_mgmt.cpp'
+for name, extra in [('fh_params_set', {}), ('cf_params_set', {}), ('ibss_dfs_params', dict(loops=PTR_LOOP, rules='rule: ibss_dfs_params::minimum_size ==> 7 /* address_type::address_size + sizeof(uint8_t) (dot11_mgmt.h) */\nrule: output\\.dfs_owner = ptr;\\s*ptr \\+= output\\.dfs_owner\\.size\\(\\); ==> tins_string_range(ptr, ptr + 6); ptr += 6; /* HWAddress<6>(const uint8_t*) copies 6 bytes; size() == 6 */\nrule: make_pair\\(first, \\*\\(ptr\\+\\+\\)\\) ==> first, *(ptr++)')),
+                    ('country_params', dict(loops=PTR_LOOP, rules='rule: country_params::minimum_size ==> 6 /* 3 + 3 (dot11_mgmt.h) */\nrule: \\bcopy\\(ptr, ptr \\+ 3, back_inserter\\(output\\.country\\)\\);\\s*ptr \\+= output\\.country\\.size\\(\\); ==> tins_string_range(ptr, ptr + 3); ptr += 3; /* country has the 3 bytes just appended */')),
+                    ('fh_pattern_type', dict(rules='rule: fh_pattern_type::minimum_size ==> 4')), ('channel_switch_type', {}), ('quiet_type', {}), ('bss_load_type', {}), ('tim_type', {})]:
+    d = dict(src=DM, qual='Dot11ManagementFrame::%s::from_option' % name, lc='dot11_' + name, predecl=SZ)
+    d.update(extra)
+    D.append(d)
+D.append(dict(src='src/ip.cpp', qual='IP::security_type::from_option', lc='ip_security_type', predecl=SZ))
+D.append(dict(src='src/ip.cpp', qual='IP::generic_route_option_type::from_option', lc='ip_generic_route_option_type', predecl=SZ,
+              loops="loop 0:\n__CPROVER_assigns(route, uint32_t_buffer)\n__CPROVER_loop_invariant(__CPROVER_same_object(route, opt->data_) && __CPROVER_POINTER_OFFSET(route) >= 1 && __CPROVER_POINTER_OFFSET(route) <= opt->real_size_ && (opt->real_size_ - __CPROVER_POINTER_OFFSET(route)) % 4 == 0)\n__CPROVER_decreases(opt->real_size_ - __CPROVER_POINTER_OFFSET(route))\nend",
+              rules='rule: address_type\\(uint32_t_buffer\\) ==> uint32_t_buffer'))
+D.append(dict(src='src/pppoe.cpp', qual='PPPoE::vendor_spec_type::from_option', lc='pppoe_vendor_spec_type', predecl=SZ))
 
 
 def generate(outdir, tier):
